@@ -12,6 +12,7 @@ package main
 // VERIF_C19_SCN  scenario file, one JSON object per line
 // VERIF_C19_OUT  result file, one JSON object per scenario
 // VERIF_C19_DIR  fresh working directory (the engine uses the relative directory data/)
+// VERIF_C19_RENDERS comma separated text renderings (default: lf,crlf,nofinal)
 
 import (
 	"bufio"
@@ -48,7 +49,14 @@ type vcsvVal struct {
 }
 
 type vcsvResult struct {
-	ID       int         `json:"id"`
+	ID   int       `json:"id"`
+	Runs []vcsvRun `json:"r"`
+}
+
+// vcsvRun is the outcome of one scenario under one or more text renderings
+// (renderings with identical outcomes are grouped).
+type vcsvRun struct {
+	Renders  []string    `json:"m"`
 	Outcomes []string    `json:"outcomes"` // one entry per event received, in order: "ok" / "err"
 	Errors   []string    `json:"errors"`   // texts of the err events
 	Table    [][]vcsvVal `json:"table"`    // SELECT * FROM t
@@ -69,9 +77,18 @@ func vcsvField(f string, sep string, only bool) string {
 	return `"` + strings.ReplaceAll(f, `"`, `""`) + `"`
 }
 
-func vcsvRender(s vcsvScenario) string {
+// vcsvRender renders the records as CSV text.
+//
+//	lf       records end with \n
+//	crlf     records end with \r\n
+//	nofinal  records are separated by \n, the last one has no line end
+func vcsvRender(s vcsvScenario, render string) string {
+	eol := "\n"
+	if render == "crlf" {
+		eol = "\r\n"
+	}
 	var b strings.Builder
-	for _, r := range s.Recs {
+	for n, r := range s.Recs {
 		for i, f := range r.Flds {
 			if i > 0 {
 				b.WriteString(s.Sep)
@@ -82,7 +99,10 @@ func vcsvRender(s vcsvScenario) string {
 				b.WriteString(vcsvField(f, s.Sep, len(r.Flds) == 1))
 			}
 		}
-		b.WriteString("\n")
+		if render == "nofinal" && n == len(s.Recs)-1 {
+			break
+		}
+		b.WriteString(eol)
 	}
 	return b.String()
 }
@@ -121,15 +141,14 @@ func vcsvTag(ty string, v interface{}) vcsvVal {
 	return vcsvVal{"?", fmt.Sprintf("%T:%v in %s column", v, v, ty)}
 }
 
-func vcsvExec(s vcsvScenario) (res vcsvResult) {
-	res.ID = s.ID
+func vcsvExec(s vcsvScenario, render string, seq int) (res vcsvRun) {
 	res.Outcomes, res.Errors, res.Table, res.ColTypes = []string{}, []string{}, [][]vcsvVal{}, []int{}
 	defer func() {
 		if r := recover(); r != nil {
 			res.Fail = fmt.Sprintf("panic: %v", r)
 		}
 	}()
-	db := fmt.Sprintf("v%d", s.ID)
+	db := fmt.Sprintf("v%dx%d", s.ID, seq)
 	defer os.RemoveAll("data/" + db)
 
 	sess := &engine.Session{}
@@ -165,7 +184,7 @@ func vcsvExec(s vcsvScenario) (res vcsvResult) {
 		res.ColTypes = append(res.ColTypes, int(t))
 	}
 
-	res.CSV = vcsvRender(s)
+	res.CSV = vcsvRender(s, render)
 	chOk, chErr := doBatchInsert(rm, cfg, strings.NewReader(res.CSV))
 	watchdog := time.After(60 * time.Second)
 	for chOk != nil || chErr != nil {
@@ -223,10 +242,36 @@ func vcsvExec(s vcsvScenario) (res vcsvResult) {
 	return
 }
 
+func vcsvSame(a, b vcsvRun) bool {
+	if a.Fail != b.Fail || len(a.Outcomes) != len(b.Outcomes) || len(a.Table) != len(b.Table) {
+		return false
+	}
+	for i := range a.Outcomes {
+		if a.Outcomes[i] != b.Outcomes[i] {
+			return false
+		}
+	}
+	for i := range a.Table {
+		if len(a.Table[i]) != len(b.Table[i]) {
+			return false
+		}
+		for k := range a.Table[i] {
+			if a.Table[i][k] != b.Table[i][k] {
+				return false
+			}
+		}
+	}
+	return true
+}
+
 func TestVerifCsv(t *testing.T) {
 	scn, out, dir := os.Getenv("VERIF_C19_SCN"), os.Getenv("VERIF_C19_OUT"), os.Getenv("VERIF_C19_DIR")
 	if scn == "" || out == "" || dir == "" {
 		t.Skip("VERIF_C19_SCN / VERIF_C19_OUT / VERIF_C19_DIR not set")
+	}
+	renders := []string{"lf", "crlf", "nofinal"}
+	if r := os.Getenv("VERIF_C19_RENDERS"); r != "" {
+		renders = strings.Split(r, ",")
 	}
 	if err := os.MkdirAll(dir, 0755); err != nil {
 		t.Fatal(err)
@@ -263,7 +308,23 @@ func TestVerifCsv(t *testing.T) {
 		if err := json.Unmarshal(sc.Bytes(), &s); err != nil {
 			t.Fatalf("bad scenario line: %v", err)
 		}
-		b, err := json.Marshal(vcsvExec(s))
+		res := vcsvResult{ID: s.ID}
+		for k, render := range renders {
+			r := vcsvExec(s, render, k)
+			merged := false
+			for i := range res.Runs {
+				if vcsvSame(res.Runs[i], r) {
+					res.Runs[i].Renders = append(res.Runs[i].Renders, render)
+					merged = true
+					break
+				}
+			}
+			if !merged {
+				r.Renders = []string{render}
+				res.Runs = append(res.Runs, r)
+			}
+		}
+		b, err := json.Marshal(res)
 		if err != nil {
 			t.Fatal(err)
 		}
